@@ -102,6 +102,25 @@ def run(ctx):
                         cmp_ok = True
         ok = bool(pv) and bool(push) and cmp_ok and all(p_ not in rb.reachable_from(e) for e in pv for p_ in push)
         kinds = sorted(set(rv[1]["variant"] for (i, j, rv, line) in agg_sites(rb, r"error::ErrorKind$")))
+        # what is measured: the whole frame (type + optional length + payload), as RFC 9221 §3 defines the limit
+        meas = []
+        for (i_, j_, rv_, line_) in agg_sites(rb, r"error::ErrorKind$", "ProtocolViolation"):
+            g = guard_cmp(rb, i_)
+            if g is None:
+                continue
+            (sw_, op_, x_, y_) = g
+            rx_, ry_ = value_roles(rb, x_), value_roles(rb, y_)
+            lim_x = any("local_max_size" in r for r in rx_)
+            lim_y = any("local_max_size" in r for r in ry_)
+            if lim_x == lim_y:
+                continue
+            size_roles, op_n = (ry_, {"Gt": "Lt", "Ge": "Le", "Lt": "Gt", "Le": "Ge"}.get(op_, op_)) if lim_x else (rx_, op_)
+            meas.append((sorted(size_roles), op_n))
+        whole = bool(meas) and all(any("encoding_size" in r and "len" in r for r in roles) and op_n == "Gt" for (roles, op_n) in meas)
+        ctx.ob("R4", "%s|the limit is applied to the whole frame (encoding_size + payload), strictly" % rb.short, whole, rb.where(),
+               "quantity compared with local_max_size when the error is raised: %s — max_datagram_frame_size bounds the entire frame "
+               "including type and length fields; measuring the payload alone accepts frames up to 9 bytes over the limit (and an empty "
+               "datagram when datagrams are disabled)" % meas)
         ctx.ob("R4", "%s|oversized datagram -> ProtocolViolation, not queued" % rb.short, ok and kinds == ["ProtocolViolation"], rb.where(),
                "error kinds %s; comparison with local_max_size: %s; error path never queues: %s" % (kinds, cmp_ok, ok))
     for name, fld in (("qdatagram::writer::DatagramOutgoing::new_writer", None), ("qdatagram::reader::DatagramIncoming::new_reader", "local_max_size")):
